@@ -327,13 +327,18 @@ def select__child_path(self: XPathToken, context: ta.ContextType = None) \
         if isinstance(context.root, DocumentNode):
             yield context.root
     elif len(self) == 1:
-        if isinstance(context.document, DocumentNode):
-            context.item = context.document
-        elif context.root is None or isinstance(context.root.parent, ElementNode):
-            return  # No root or a rooted subtree -> document root produce []
-        else:
-            context.item = context.root  # A fragment or a schema node
-        yield from self[0].select(context)
+        status = context.item, context.axis
+        try:
+            if isinstance(context.document, DocumentNode):
+                context.item = context.document
+            elif context.root is None or isinstance(context.root.parent, ElementNode):
+                return  # No root or a rooted subtree -> document root produce []
+            else:
+                context.item = context.root  # A fragment or a schema node
+            context.axis = None
+            yield from self[0].select(context)
+        finally:
+            context.item, context.axis = status
     else:
         items: set[ta.ItemType] = set()
         for _ in self[0].select_with_focus(context):
@@ -385,25 +390,30 @@ def select__descendant_path(self: XPathToken, context: ta.ContextType = None) \
         yield from cast(list[XPathNode], sorted(items, key=node_position))
 
     else:
-        if isinstance(context.document, DocumentNode):
-            context.item = context.document
-        elif context.root is None or isinstance(context.root.parent, ElementNode):
-            return  # No root or a rooted subtree -> document root produce []
-        else:
-            context.item = context.root  # A fragment or a schema node
+        status = context.item, context.axis
+        try:
+            if isinstance(context.document, DocumentNode):
+                context.item = context.document
+            elif context.root is None or isinstance(context.root.parent, ElementNode):
+                return  # No root or a rooted subtree -> document root produce []
+            else:
+                context.item = context.root  # A fragment or a schema node
+            context.axis = None
 
-        items = set()
-        for _ in context.iter_descendants():
-            for result in self[0].select(context):
-                if not isinstance(result, XPathNode):
-                    yield result
-                elif result in items:
-                    pass
-                elif isinstance(result, ElementNode):
-                    if result.value not in items:
+            items = set()
+            for _ in context.iter_descendants():
+                for result in self[0].select(context):
+                    if not isinstance(result, XPathNode):
+                        yield result
+                    elif result in items:
+                        pass
+                    elif isinstance(result, ElementNode):
+                        if result.value not in items:
+                            items.add(result)
+                    else:
                         items.add(result)
-                else:
-                    items.add(result)
+        finally:
+            context.item, context.axis = status
 
         yield from sorted(items, key=node_position)
 
@@ -451,16 +461,17 @@ def select_with_focus__predicate(self: XPathToken, context: XPathContext) \
         return
 
     status = context.item, context.size, context.position, context.axis
-    results = [x for x in self.select(context)]
-    context.item, context.size, context.position, context.axis = status
-    context.axis = None
+    try:
+        results = [x for x in self.select(context)]
+        context.item, context.size, context.position, context.axis = status
+        context.axis = None
 
-    context.size = context.position = len(results)
-    for context.item in results:
-        yield context.item
-        context.position -= 1
-
-    context.item, context.size, context.position, context.axis = status
+        context.size = context.position = len(results)
+        for context.item in results:
+            yield context.item
+            context.position -= 1
+    finally:
+        context.item, context.size, context.position, context.axis = status
 
 
 ###
